@@ -91,7 +91,8 @@ theorem solver_eq_ref (cfg : Cfg K σ) (sched : Nat → Bool) (sanity : Bool) (N
     ((solverRun cfg sched sanity N (fresh cfg θ o)).θ, (solverRun cfg sched sanity N (fresh cfg θ o)).opt)
       = refLoop cfg N (θ, o) ∧
     (solverRun cfg sched sanity N (fresh cfg θ o)).nIter = N ∧
-    (solverRun cfg sched sanity N (fresh cfg θ o)).gstep = N := by
+    (solverRun cfg sched sanity N (fresh cfg θ o)).gstep = N ∧
+    (solverRun cfg sched sanity N (fresh cfg θ o)).calls = cfg.train.map (fun _ => N) := by
   have h := loop_ref cfg sched N (onTrainStart (if sanity then valPass cfg (fresh cfg θ o) else fresh cfg θ o))
     (by cases sanity <;> rfl) (by cases sanity <;> rfl)
   have g0 : (onTrainStart (if sanity then valPass cfg (fresh cfg θ o) else fresh cfg θ o)).gstep = 0 := by
@@ -103,9 +104,10 @@ theorem solver_eq_ref (cfg : Cfg K σ) (sched : Nat → Bool) (sanity : Bool) (N
   rw [g0, t0, o0] at h
   have hN : N - (fresh cfg θ o).gstep = N := by simp [fresh]
   simp only [solverRun, hN, refLoop]
-  refine ⟨h.1, ?_, ?_⟩
+  refine ⟨h.1, ?_, ?_, ?_⟩
   · simpa using h.2.1
   · simpa using h.2.2.1
+  · simpa using h.2.2.2
 
 /-- the step with (0-based) index `j` of an `N`-step run is evaluated with `iteration = j`: the run is
     the `j`-step run followed by `N - j` further batches, and the counter after `j` steps is `j` -/
